@@ -48,8 +48,12 @@ class UpgradeSSLContextTLS(SimpleCodemod):
         self.remove_unused_import(original_node)
         self.add_needed_import("ssl")
 
-        if len((args := original_node.args)) == 1 and args[0].keyword is None:
-            new_args = [self.make_new_arg(self.SAFE_TLS_PROTOCOL_VERSION)]
+        args = original_node.args
+        if args and args[0].keyword is None and not args[0].star:
+            # the protocol is passed positionally: replace it where it is and
+            # keep whatever follows it
+            safe = self.make_new_arg(self.SAFE_TLS_PROTOCOL_VERSION)
+            new_args = [args[0].with_changes(value=safe.value), *args[1:]]
         else:
             new_args = self.replace_args(
                 original_node,
